@@ -58,7 +58,7 @@ def seed_table():
         a[1] += 1 if m.get("strengthening") else 0
     rounds = "; ".join("round %d: %d changes, %d needed strengthening" % (r, a[0], a[1]) for r, a in sorted(per_round.items()))
     head = (("%d seeded changes are kept (two per property and round, every round from 20 fresh sub-agents; seeds 1-2 are round 1, "
-            "3-4 round 2, and so on: " + rounds.replace("%", "%%") + "; later rounds asked for subtler changes, away from the anchored functions: other "
+            "3-4 round 2, and so on; round 12, seeds 23-24, was run for ten properties - C01 C02 C03 C04 C06 C10 C13 C14 C15 C20: " + rounds.replace("%", "%%") + "; later rounds asked for subtler changes, away from the anchored functions: other "
             "entry points, interactions of two features, state surviving between inputs, error paths, conversions; each confirmed by `lib/seedconfirm.sh`: the "
             "repository builds and its tests pass with the patch, the author's demonstration fails with it and passes without it). "
             "%d of them were NOT caught by the first version of the check they target (the check exited 0, or died without a "
